@@ -891,7 +891,7 @@ fn step() -> BoxedStrategy<Step> {
         8 => any::<u8>().prop_map(|h| Step::Return { h }),
         1 => any::<u8>().prop_map(|h| Step::Take { h }),
         1 => (0u8..4).prop_map(|n| Step::Resize { n }),
-        10 => (any::<u8>(), 0u8..3, 0u8..3, prop::bool::weighted(0.25), 0u8..4).prop_map(|(h, q, t, txn, via)| Step::Prepare { h, q, t, txn, via }),
+        10 => (any::<u8>(), 0u8..3, 0u8..3, prop::bool::weighted(0.25), 0u8..16).prop_map(|(h, q, t, txn, via)| Step::Prepare { h, q, t, txn, via }),
         2 => (any::<u8>(), 0u8..3, 0u8..3, any::<u8>()).prop_map(|(h, q, t, n)| Step::PrepareJoin { h, q, t, n }),
         1 => any::<u8>().prop_map(|h| Step::CacheClear { h }),
         1 => (any::<u8>(), 0u8..3, 0u8..3).prop_map(|(h, q, t)| Step::CacheRemove { h, q, t }),
@@ -907,7 +907,7 @@ fn case(thorough: bool) -> BoxedStrategy<Case> {
     let maxlen = if thorough { 50 } else { 30 };
     (
         1u8..=3,
-        prop_oneof![Just(Method::Fast), Just(Method::Verified), Just(Method::Clean), (0u8..3).prop_map(Method::Custom)],
+        prop_oneof![Just(Method::Fast), Just(Method::Verified), Just(Method::Clean), prop_oneof![3 => 0u8..3, 1 => 6u8..8].prop_map(Method::Custom)],
         prop::collection::vec(step(), 1..=maxlen),
     )
         .prop_map(|(max_size, method, steps)| Case { max_size, method, steps })
